@@ -277,3 +277,122 @@ func verifMatchPatternLiteral(f *NetworkRule, r *Request) bool {
 func verifContainsFold(u, lit string) bool {
 	return strings.Contains(strings.ToLower(u), lit)
 }
+
+// ---------------------------------------------------------------------------
+// C02 / C13: DNS engine harness helpers.
+
+// VerifGarbageRequest is a request object as a pool may hand it out: every field arbitrary.
+func VerifGarbageRequest(p string) *Request {
+	r := &Request{}
+	r.ClientName = verifString(p+".cn", 2, "ab")
+	r.URL = verifString(p+".url", 3, "ab:/")
+	r.URLLowerCase = verifString(p+".urll", 3, "ab:/")
+	r.Hostname = verifString(p+".host", 2, "zq")
+	r.Domain = verifString(p+".dom", 2, "ab")
+	r.SourceURL = verifString(p+".surl", 2, "ab")
+	r.SourceHostname = verifString(p+".shost", 2, "zq")
+	r.SourceDomain = verifString(p+".sdom", 2, "ab")
+	r.SortedClientTags = []string{verifString(p+".tag", 1, "ab")}
+	r.RequestType = RequestType(verifU32(p + ".type"))
+	r.DNSType = verifU16(p + ".dnstype")
+	r.ThirdParty = verifBool(p + ".tp")
+	r.IsHostnameRequest = verifBool(p + ".hr")
+	if verifBool(p + ".hasip") {
+		r.ClientIP = netip.AddrFrom4([4]byte{9, 9, 9, verifU8(p + ".ip")})
+	}
+	return r
+}
+
+// VerifDNSNetRule: a network rule for the DNS engine harness: literal pattern of
+// patLen symbolic bytes over {a,b}, symbolic option words / type masks, optional
+// $domain, optional $dnsrewrite, optional $dnstype=A.
+func VerifDNSNetRule(p string, patLen int) *NetworkRule {
+	r := &NetworkRule{RuleText: p, FilterListID: 1}
+	sc := verifString(p+".pat", patLen, "zq")
+	r.pattern = sc
+	r.Shortcut = sc
+	r.Whitelist = verifBool(p + ".whitelist")
+	r.enabledOptions = NetworkRuleOption(verifU64(p + ".enabled"))
+	r.disabledOptions = NetworkRuleOption(verifU64(p + ".disabled"))
+	r.permittedRequestTypes = RequestType(verifU32(p + ".ptypes"))
+	r.restrictedRequestTypes = RequestType(verifU32(p + ".rtypes"))
+	r.permittedDomains = verifSymLen([]string{"zq.com"}, p+".npd")
+	r.restrictedDomains = verifSymLen([]string{"qz.com"}, p+".nrd")
+	r.permittedDNSTypes = verifSymLen([]RRType{1}, p+".npq")
+	if verifBool(p + ".hasRewrite") {
+		r.DNSRewrite = &DNSRewrite{NewCNAME: "c"}
+	}
+	verifAssume(verifInvOptions(r))
+	verifAssume(verifRequestTypesOK(r))
+	if verifSymbolic() {
+		return r
+	}
+	var extra []string
+	if r.DNSRewrite != nil {
+		extra = append(extra, "dnsrewrite=c")
+	}
+	parsed := verifRealize(r, r.pattern, extra...)
+	return parsed
+}
+
+// VerifHostLevel is the documented predicate: a rule is usable for DNS-level
+// filtering iff it has no $domain, does not carry both content-type lists,
+// disables nothing, and enables nothing but $important and $badfilter.
+func VerifHostLevel(r *NetworkRule) bool {
+	if len(r.permittedDomains) > 0 || len(r.restrictedDomains) > 0 {
+		return false
+	}
+	if r.permittedRequestTypes != 0 && r.restrictedRequestTypes != 0 {
+		return false
+	}
+	if r.disabledOptions != 0 {
+		return false
+	}
+	return r.enabledOptions&^(OptionImportant|OptionBadfilter) == 0
+}
+
+// VerifHostRule: a hosts-file rule with nNames names of one symbolic letter pair and an IPv4 or IPv6 address.
+func VerifHostRule(p string, nNames int) *HostRule {
+	h := &HostRule{RuleText: p, FilterListID: 1}
+	v6 := verifBool(p + ".v6")
+	if v6 {
+		h.IP = netip.IPv6Loopback()
+	} else {
+		h.IP = netip.AddrFrom4([4]byte{127, 0, 0, 1})
+	}
+	text := "127.0.0.1"
+	if v6 {
+		text = "::1"
+	}
+	for i := 0; i < nNames; i++ {
+		n := verifString(vn(p+".name", i, ""), 2, "zq")
+		h.Hostnames = append(h.Hostnames, n)
+		text += " " + n
+	}
+	if !verifSymbolic() {
+		parsed, err := NewHostRule(text, 1)
+		if err != nil {
+			panic(verifSkip{"host rule rejected: " + text})
+		}
+		verifRealised = append(verifRealised, text)
+		return parsed
+	}
+	return h
+}
+
+// VerifClass: 0 none, 1 block, 2 important block, 3 exception, 4 important exception.
+func VerifClass(r *NetworkRule) int {
+	if r == nil {
+		return 0
+	}
+	imp := r.enabledOptions&OptionImportant != 0
+	switch {
+	case r.Whitelist && imp:
+		return 4
+	case r.Whitelist:
+		return 3
+	case imp:
+		return 2
+	}
+	return 1
+}
